@@ -196,6 +196,15 @@ def run(ctx, report):
         if res != ("ret", True):
             r_tab.finding("DE:09.validate", "method 09 (no check digit calculation) must accept every account", by_name["09"].where)
 
+    # the verdict depends on nothing but method and account number: no method writes into shared class-level objects
+    from ..state_eval import explore_algorithms
+    from .c14 import shared_classes
+    per_reg, shared_writes = explore_algorithms(ctx, shared_classes(ctx))
+    for (name, fn, where_), e in sorted(shared_writes.items(), key=lambda kv: str(kv[0])):
+        if "germany" in (where_ or "") or name.startswith("Algorithm") or name.startswith("Weighted"):
+            r_pure.finding(f"{fn}:{name}", f"{fn} writes into {name}, an object shared by all validations of the method: the verdict for one account depends on the accounts validated before",
+                           where_)
+
     report.not_decided += [
         "full semantics of the variant rules of methods 13/63 (sub-account fallback), 24, 25, 68, 76 beyond their parameters and hook tables",
         "that the reference table equals the current Bundesbank publication (typed from it; it cannot be re-read in the sandbox)",
